@@ -108,16 +108,16 @@ Proof.
   - specialize (IH Hx Hf). destruct (f a); cbn; lia.
 Qed.
 
-Lemma has_id_app_self iv ms : has_id (sv_id iv) (ms ++ [iv]) = true.
+Lemma has_key_app_self iv ms : has_key (sv_key iv) (ms ++ [iv]) = true.
 Proof.
-  unfold has_id. rewrite existsb_app. cbn. rewrite Z.eqb_refl. apply orb_true_r.
+  unfold has_key. rewrite existsb_app. cbn. rewrite Z.eqb_refl. apply orb_true_r.
 Qed.
 
 Lemma remove_shrinks iv ms st :
   In iv st -> (length (remove_vars (ms ++ [iv]) st) < length st)%nat.
 Proof.
   intro H. unfold remove_vars. apply filter_length_lt with (x := iv); [exact H|].
-  rewrite has_id_app_self. reflexivity.
+  rewrite has_key_app_self. reflexivity.
 Qed.
 
 Lemma filter_res_err {A} (f : A -> res bool) l e :
@@ -136,59 +136,92 @@ Proof.
   induction l as [|a l IH]; [reflexivity|]. cbn. rewrite IH. cbn. destruct (f a); reflexivity.
 Qed.
 
+(* a partial filter that succeeds is the total filter of any test that agrees with it *)
+Lemma filter_res_ok_filter {A} (f : A -> res bool) (g : A -> bool) l : forall s,
+  filter_res f l = Ok s -> (forall a b, In a l -> f a = Ok b -> g a = b) -> s = filter g l.
+Proof.
+  induction l as [|a l IH]; intros s H Hg; cbn in H.
+  - inversion H. reflexivity.
+  - destruct (f a) as [b|e] eqn:E; cbn [bind] in H; [|discriminate].
+    destruct (filter_res f l) as [s'|e] eqn:F; cbn [bind] in H; [|discriminate].
+    inversion H; subst. cbn [filter]. rewrite (Hg a b (or_introl eq_refl) E).
+    rewrite (IH s' eq_refl) by (intros x y Hx; apply Hg; right; exact Hx). reflexivity.
+Qed.
+
 (* termination: one unit of fuel per variant always suffices *)
-Lemma clump_loop_fuel {G} p1 kb (load : svar -> res G) pass :
+Lemma clump_loop_fuel {G} p1 win (load : svar -> res G) pass :
   (forall iv, load iv <> Err E_Timeout) ->
   (forall gi iv c, pass gi iv c <> Err E_Timeout) ->
   forall fuel stats, (length stats <= fuel)%nat ->
-  clump_loop fuel p1 kb load pass stats <> Err E_Timeout.
+  clump_loop fuel p1 win load pass stats <> Err E_Timeout.
 Proof.
   intros HL HP fuel. induction fuel as [|f IH]; intros stats Hl.
   - destruct stats; [|cbn in Hl; lia]. cbn. discriminate.
   - cbn [clump_loop]. destruct (next_index p1 stats) as [iv|] eqn:N; [|discriminate].
     destruct (load iv) as [gi|e] eqn:LD; cbn [bind].
     2:{ intro K. inversion K; subst. exact (HL iv LD). }
-    destruct (filter_res (pass gi iv) (query_window iv kb stats)) as [ms|e] eqn:F; cbn [bind].
+    destruct (filter_res (pass gi iv) (query_window win iv stats)) as [ms|e] eqn:F; cbn [bind].
     + pose proof (remove_shrinks iv ms stats (next_index_in _ _ _ N)) as Hs.
       specialize (IH (remove_vars (ms ++ [iv]) stats)).
-      destruct (clump_loop f p1 kb load pass (remove_vars (ms ++ [iv]) stats)) as [rest|e] eqn:R; cbn [bind].
+      destruct (clump_loop f p1 win load pass (remove_vars (ms ++ [iv]) stats)) as [rest|e] eqn:R; cbn [bind].
       * discriminate.
       * intro K. inversion K; subst. apply IH; [lia|reflexivity].
     + intro K. inversion K; subst. destruct (filter_res_err _ _ _ F) as (c & _ & Hc). exact (HP gi iv c Hc).
 Qed.
 
-Lemma clump_terminates_total p1 kb (pb : svar -> svar -> bool) stats :
-  exists cl, clump_loop_total (length stats) p1 kb pb stats = Ok cl.
+Lemma clump_terminates_total p1 win (pb : svar -> svar -> bool) stats :
+  exists cl, clump_loop_total (length stats) p1 win pb stats = Ok cl.
 Proof.
   unfold clump_loop_total.
   assert (forall fuel st, (length st <= fuel)%nat ->
-          exists cl, clump_loop fuel p1 kb (fun _ => Ok tt) (fun _ iv c => Ok (pb iv c)) st = Ok cl) as G.
+          exists cl, clump_loop fuel p1 win (fun _ => Ok tt) (fun _ iv c => Ok (pb iv c)) st = Ok cl) as G.
   { induction fuel as [|f IH]; intros st Hl.
     - destruct st; [|cbn in Hl; lia]. exists []. reflexivity.
     - cbn [clump_loop]. destruct (next_index p1 st) as [iv|] eqn:N; [|exists []; reflexivity].
       cbn [bind]. rewrite filter_res_total. cbn [bind].
-      pose proof (remove_shrinks iv (filter (pb iv) (query_window iv kb st)) st (next_index_in _ _ _ N)) as Hs.
-      destruct (IH (remove_vars (filter (pb iv) (query_window iv kb st) ++ [iv]) st)) as [rest R]; [lia|].
+      pose proof (remove_shrinks iv (filter (pb iv) (query_window win iv st)) st (next_index_in _ _ _ N)) as Hs.
+      destruct (IH (remove_vars (filter (pb iv) (query_window win iv st) ++ [iv]) st)) as [rest R]; [lia|].
       rewrite R. cbn [bind]. eexists. reflexivity. }
   apply G. lia.
 Qed.
 
+(* a run of the loop with partial genotype lookups that succeeds is the run of the total loop
+   with any boolean test that agrees with the lookups that succeeded *)
+Lemma clump_loop_as_total {G} p1 win (load : svar -> res G) pass (pb : svar -> svar -> bool) :
+  (forall iv gi c b, load iv = Ok gi -> pass gi iv c = Ok b -> pb iv c = b) ->
+  forall fuel stats cl,
+  clump_loop fuel p1 win load pass stats = Ok cl ->
+  clump_loop_total fuel p1 win pb stats = Ok cl.
+Proof.
+  intros Hpb. unfold clump_loop_total. induction fuel as [|f IH]; intros stats cl H.
+  - cbn in *. destruct (next_index p1 stats); [discriminate|exact H].
+  - cbn [clump_loop] in *. destruct (next_index p1 stats) as [iv|] eqn:N; [|exact H].
+    destruct (load iv) as [gi|e] eqn:LD; cbn [bind] in H; [|discriminate].
+    destruct (filter_res (pass gi iv) (query_window win iv stats)) as [ms|e] eqn:F; cbn [bind] in H; [|discriminate].
+    destruct (clump_loop f p1 win load pass (remove_vars (ms ++ [iv]) stats)) as [rest|e] eqn:R;
+      cbn [bind] in H; [|discriminate].
+    inversion H; subst. cbn [bind]. rewrite filter_res_total. cbn [bind].
+    assert (ms = filter (pb iv) (query_window win iv stats)) as <-.
+    { apply (filter_res_ok_filter _ _ _ _ F). intros c b _ Hc. exact (Hpb iv gi c b LD Hc). }
+    rewrite (IH _ _ R). reflexivity.
+Qed.
+
 (* ---- greedy characterisation --------------------------------------------------- *)
 
-Definition members (kb : Q) (pb : svar -> svar -> bool) (iv : svar) (st : list svar) : list svar :=
-  filter (fun c => in_window iv kb c && pb iv c) st.
+Definition members (win pb : svar -> svar -> bool) (iv : svar) (st : list svar) : list svar :=
+  filter (fun c => win iv c && pb iv c) st.
 
-Inductive greedy (p1 kb : Q) (pb : svar -> svar -> bool) : list svar -> list clump -> Prop :=
+Inductive greedy (p1 : Q) (win pb : svar -> svar -> bool) : list svar -> list clump -> Prop :=
 | greedy_stop st :
     (forall v, In v st -> eligible p1 v = false) ->
-    greedy p1 kb pb st []
+    greedy p1 win pb st []
 | greedy_step st pre iv post rest :
     st = pre ++ iv :: post ->
     eligible p1 iv = true ->
     (forall v, In v st -> eligible p1 v = true -> (sv_p iv <= sv_p v)%Q) ->
     (forall v, In v pre -> eligible p1 v = true -> (sv_p iv < sv_p v)%Q) ->
-    greedy p1 kb pb (remove_vars (members kb pb iv st ++ [iv]) st) rest ->
-    greedy p1 kb pb st ((iv, members kb pb iv st) :: rest).
+    greedy p1 win pb (remove_vars (members win pb iv st ++ [iv]) st) rest ->
+    greedy p1 win pb st ((iv, members win pb iv st) :: rest).
 
 Lemma filter_filter {A} (f g : A -> bool) l : filter g (filter f l) = filter (fun a => f a && g a) l.
 Proof.
@@ -196,17 +229,17 @@ Proof.
   destruct (g a); rewrite IH; reflexivity.
 Qed.
 
-Lemma clump_loop_greedy p1 kb pb : forall fuel stats cl,
-  clump_loop_total fuel p1 kb pb stats = Ok cl -> greedy p1 kb pb stats cl.
+Lemma clump_loop_greedy p1 win pb : forall fuel stats cl,
+  clump_loop_total fuel p1 win pb stats = Ok cl -> greedy p1 win pb stats cl.
 Proof.
   unfold clump_loop_total. induction fuel as [|f IH]; intros stats cl H.
   - cbn in H. destruct (next_index p1 stats) eqn:N; [discriminate|]. inversion H; subst.
     apply greedy_stop. apply next_index_none. exact N.
   - cbn [clump_loop] in H. destruct (next_index p1 stats) as [iv|] eqn:N.
     + cbn [bind] in H. rewrite filter_res_total in H. cbn [bind] in H.
-      unfold query_window in H. rewrite filter_filter in H. fold (members kb pb iv stats) in H.
-      destruct (clump_loop f p1 kb (fun _ => Ok tt) (fun _ iv c => Ok (pb iv c))
-                  (remove_vars (members kb pb iv stats ++ [iv]) stats))
+      unfold query_window in H. rewrite filter_filter in H. fold (members win pb iv stats) in H.
+      destruct (clump_loop f p1 win (fun _ => Ok tt) (fun _ iv c => Ok (pb iv c))
+                  (remove_vars (members win pb iv stats ++ [iv]) stats))
         as [rest|e] eqn:R; cbn [bind] in H; [|discriminate].
       inversion H; subst.
       destruct (next_index_some _ _ _ N) as (pre & post & E & El & Hmin & Hpre).
@@ -216,10 +249,11 @@ Qed.
 
 (* ---- disjointness ------------------------------------------------------------------ *)
 
+Definition clump_keys (c : clump) : list Z := sv_key (fst c) :: map sv_key (snd c).
 Definition clump_ids (c : clump) : list Z := sv_id (fst c) :: map sv_id (snd c).
 
-Lemma greedy_within p1 kb pb st cl :
-  greedy p1 kb pb st cl -> forall c, In c cl -> In (fst c) st /\ incl (snd c) st.
+Lemma greedy_within p1 win pb st cl :
+  greedy p1 win pb st cl -> forall c, In c cl -> In (fst c) st /\ incl (snd c) st.
 Proof.
   induction 1 as [st _|st pre iv post rest E El Hmin Hpre G IH]; intros c Hc; [contradiction|].
   destruct Hc as [<-|Hc]; cbn [fst snd].
@@ -230,52 +264,123 @@ Proof.
     + intros x Hx. specialize (I2 x Hx). apply filter_In in I2. tauto.
 Qed.
 
-Lemma has_id_true x l : has_id x l = true <-> In x (map sv_id l).
+Lemma has_key_true x l : has_key x l = true <-> In x (map sv_key l).
 Proof.
-  unfold has_id. rewrite existsb_exists, in_map_iff. split.
+  unfold has_key. rewrite existsb_exists, in_map_iff. split.
   - intros (v & Hv & E). apply Z.eqb_eq in E. exists v. tauto.
   - intros (v & E & Hv). exists v. split; [exact Hv|apply Z.eqb_eq; exact E].
 Qed.
 
-Lemma clump_ids_gone iv ms x : In x (clump_ids (iv, ms)) -> has_id x (ms ++ [iv]) = true.
+Lemma clump_keys_gone iv ms x : In x (clump_keys (iv, ms)) -> has_key x (ms ++ [iv]) = true.
 Proof.
-  intro H. apply has_id_true. rewrite map_app. apply in_or_app. cbn in H. destruct H as [<-|H].
+  intro H. apply has_key_true. rewrite map_app. apply in_or_app. cbn in H. destruct H as [<-|H].
   - right. left. reflexivity.
   - left. exact H.
 Qed.
 
-Lemma greedy_disjoint p1 kb pb st cl :
-  greedy p1 kb pb st cl ->
-  ForallOrdPairs (fun c1 c2 => forall x, In x (clump_ids c1) -> In x (clump_ids c2) -> False) cl.
+(* no variant (row of the tables, identified by its load key) is in two clumps *)
+Lemma greedy_disjoint p1 win pb st cl :
+  greedy p1 win pb st cl ->
+  ForallOrdPairs (fun c1 c2 => forall x, In x (clump_keys c1) -> In x (clump_keys c2) -> False) cl.
 Proof.
   induction 1 as [st _|st pre iv post rest E El Hmin Hpre G IH]; [constructor|].
   constructor; [|exact IH].
   apply Forall_forall. intros c Hc x H1 H2.
-  pose proof (clump_ids_gone _ _ _ H1) as Hg.
+  pose proof (clump_keys_gone _ _ _ H1) as Hg.
   destruct (greedy_within _ _ _ _ _ G c Hc) as [I1 I2].
-  assert (exists v, In v (remove_vars (members kb pb iv st ++ [iv]) st) /\ sv_id v = x) as (v & Hv & <-).
-  { unfold clump_ids in H2. destruct H2 as [<-|H2].
+  assert (exists v, In v (remove_vars (members win pb iv st ++ [iv]) st) /\ sv_key v = x) as (v & Hv & <-).
+  { unfold clump_keys in H2. destruct H2 as [<-|H2].
     - exists (fst c). split; [exact I1|reflexivity].
     - apply in_map_iff in H2. destruct H2 as (v & Ev & Hv). exists v. split; [apply I2; exact Hv|exact Ev]. }
   unfold remove_vars in Hv. apply filter_In in Hv. destruct Hv as [_ Hv].
   rewrite Hg in Hv. discriminate.
 Qed.
 
+Lemma nodup_map_inj {A} (f : A -> Z) l a b :
+  NoDup (map f l) -> In a l -> In b l -> f a = f b -> a = b.
+Proof.
+  induction l as [|x l IH]; intros ND Ha Hb E; [contradiction|].
+  cbn [map] in ND. inversion ND as [|? ? NI ND']; subst.
+  destruct Ha as [->|Ha], Hb as [->|Hb].
+  - reflexivity.
+  - exfalso. apply NI. rewrite E. apply in_map. exact Hb.
+  - exfalso. apply NI. rewrite <- E. apply in_map. exact Ha.
+  - apply IH; assumption.
+Qed.
+
+Lemma nodup_map_filter {A} (k : A -> Z) (f : A -> bool) l : NoDup (map k l) -> NoDup (map k (filter f l)).
+Proof.
+  induction l as [|v r IHr]; intro ND; [constructor|]. cbn [map] in ND. inversion ND as [|? ? NI ND']; subst.
+  cbn [filter]. destruct (f v); [|apply IHr; exact ND']. cbn [map]. constructor; [|apply IHr; exact ND'].
+  intro K. apply NI. apply in_map_iff in K. destruct K as (w & Ew & Hw). apply filter_In in Hw.
+  rewrite <- Ew. apply in_map. tauto.
+Qed.
+
+Lemma fop_impl_in {A} (P Q : A -> A -> Prop) l :
+  ForallOrdPairs P l -> (forall a b, In a l -> In b l -> P a b -> Q a b) -> ForallOrdPairs Q l.
+Proof.
+  induction 1 as [|a l F D IH]; intro H; [constructor|]. constructor.
+  - rewrite Forall_forall in *. intros b Hb. apply H; [left; reflexivity|right; exact Hb|apply F; exact Hb].
+  - apply IH. intros x y Hx Hy. apply H; right; assumption.
+Qed.
+
+(* with distinct IDs: no ID is in two clumps *)
+Lemma greedy_disjoint_ids p1 win pb st cl :
+  NoDup (map sv_id st) ->
+  greedy p1 win pb st cl ->
+  ForallOrdPairs (fun c1 c2 => forall x, In x (clump_ids c1) -> In x (clump_ids c2) -> False) cl.
+Proof.
+  intros ND G.
+  assert (forall c, In c cl -> forall x, In x (clump_ids c) ->
+          exists v, In v st /\ sv_id v = x /\ In (sv_key v) (clump_keys c)) as W.
+  { intros c Hc x Hx. destruct (greedy_within _ _ _ _ _ G c Hc) as [I1 I2].
+    unfold clump_ids in Hx. destruct Hx as [<-|Hx].
+    - exists (fst c). split; [exact I1|]. split; [reflexivity|left; reflexivity].
+    - apply in_map_iff in Hx. destruct Hx as (v & Ev & Hv). exists v. split; [apply I2; exact Hv|].
+      split; [exact Ev|]. right. apply in_map. exact Hv. }
+  apply (fop_impl_in _ _ _ (greedy_disjoint _ _ _ _ _ G)).
+  intros c c' Hc Hc' F x H1 H2.
+  destruct (W c Hc x H1) as (v1 & S1 & E1 & K1).
+  destruct (W c' Hc' x H2) as (v2 & S2 & E2 & K2).
+  assert (v1 = v2) as <- by (apply (nodup_map_inj sv_id st); try assumption; congruence).
+  exact (F _ K1 K2).
+Qed.
+
 (* ---- what the boolean checker of the .clump rows means ------------------------------------------ *)
 
-Inductive greedy_ids (p1 kb : Q) (pb : svar -> svar -> bool) : list svar -> list orow -> Prop :=
+(* the member list [ms] (IDs) of a clump with index iv over the remaining table st *)
+Definition members_spec (wlo whi pb : svar -> svar -> bool) (iv : svar) (st : list svar) (ms : list Z) : Prop :=
+  (forall c, In c st -> wlo iv c = true -> (In (sv_id c) ms <-> pb iv c = true)) /\
+  (forall c, In c st -> In (sv_id c) ms -> (wlo iv c = true \/ whi iv c = true) /\ pb iv c = true) /\
+  (forall x, In x ms -> exists c, In c st /\ sv_id c = x) /\
+  NoDup ms.
+
+Inductive greedy_ids (ei es : svar -> bool) (wlo whi pb : svar -> svar -> bool) : list svar -> list irow -> Prop :=
 | gi_stop st :
-    (forall v, In v st -> eligible p1 v = false) ->
-    greedy_ids p1 kb pb st []
+    (forall v, In v st -> es v = false) ->
+    greedy_ids ei es wlo whi pb st []
 | gi_step st pre iv post ms rest :
     st = pre ++ iv :: post ->
     (forall v, In v pre -> sv_id v <> sv_id iv) ->
-    eligible p1 iv = true ->
-    (forall v, In v st -> eligible p1 v = true -> (sv_p iv <= sv_p v)%Q) ->
-    (forall v, In v pre -> eligible p1 v = true -> (sv_p iv < sv_p v)%Q) ->
-    (forall x, In x ms <-> In x (map sv_id (members kb pb iv st))) -> NoDup ms ->
-    greedy_ids p1 kb pb (filter (fun v => negb (memZ (sv_id v) (sv_id iv :: ms))) st) rest ->
-    greedy_ids p1 kb pb st ((sv_id iv, ms) :: rest).
+    ei iv = true ->
+    (forall v, In v st -> ei v = true -> (sv_p iv <= sv_p v)%Q) ->
+    (forall v, In v pre -> ei v = true -> (sv_p iv < sv_p v)%Q) ->
+    members_spec wlo whi pb iv st ms ->
+    greedy_ids ei es wlo whi pb (filter (fun v => negb (memZ (sv_id v) (sv_id iv :: ms))) st) rest ->
+    greedy_ids ei es wlo whi pb st ((sv_id iv, ms) :: rest).
+
+(* with a single window predicate the member list is, as a set, the IDs of [members] *)
+Lemma members_spec_single win pb iv st ms :
+  members_spec win win pb iv st ms ->
+  (forall x, In x ms <-> In x (map sv_id (members win pb iv st))) /\ NoDup ms.
+Proof.
+  intros (S1 & S2 & S3 & S4). split; [|exact S4]. intro x. split; intro K.
+  - destruct (S3 x K) as (c & Hc & <-). destruct (S2 c Hc K) as [W P].
+    apply in_map. unfold members. apply filter_In. split; [exact Hc|].
+    assert (win iv c = true) as -> by tauto. rewrite P. reflexivity.
+  - apply in_map_iff in K. destruct K as (c & <- & Hc). unfold members in Hc. apply filter_In in Hc.
+    destruct Hc as [Hc E]. apply andb_true_iff in E. destruct E as [W P]. apply (S1 c Hc W). exact P.
+Qed.
 
 Lemma split_at_spec x l pre iv post :
   split_at x l = Some (pre, iv, post) ->
@@ -302,72 +407,79 @@ Proof.
   constructor; [|apply IH; exact H2]. intro K. apply memZ_In in K. rewrite K in H1. discriminate.
 Qed.
 
-Lemma members_ok_sound pb iv kb st ms :
-  members_ok (fun iv c => Some (pb iv c)) iv kb st ms = true ->
-  (forall x, In x ms <-> In x (map sv_id (members kb pb iv st))) /\ NoDup ms.
+Lemma members_ok_sound pb wlo whi iv st ms :
+  members_ok (fun iv c => Some (pb iv c)) wlo whi iv st ms = true ->
+  members_spec wlo whi pb iv st ms.
 Proof.
   unfold members_ok. rewrite !andb_true_iff, !forallb_forall. intros [[H1 H2] H3].
-  split; [|apply nodupb_sound; exact H3]. intro x. split; intro K.
-  - specialize (H2 x K). apply existsb_exists in H2. destruct H2 as (c & Hc & E).
-    apply andb_true_iff in E. destruct E as [E W]. apply Z.eqb_eq in E. subst x.
-    specialize (H1 c Hc). rewrite W in H1. cbn [negb orb] in H1. apply eqb_prop in H1.
-    apply memZ_In in K. rewrite K in H1. apply in_map. unfold members. apply filter_In.
-    split; [exact Hc|]. rewrite W, <- H1. reflexivity.
-  - apply in_map_iff in K. destruct K as (c & <- & Hc). unfold members in Hc. apply filter_In in Hc.
-    destruct Hc as [Hc E]. apply andb_true_iff in E. destruct E as [W P].
-    specialize (H1 c Hc). rewrite W in H1. cbn [negb orb] in H1. apply eqb_prop in H1.
-    apply memZ_In. rewrite H1. exact P.
+  split; [|split; [|split]].
+  - intros c Hc W. specialize (H1 c Hc). cbv zeta in H1. rewrite W in H1. apply eqb_prop in H1.
+    rewrite <- memZ_In, H1. tauto.
+  - intros c Hc K. specialize (H1 c Hc). cbv zeta in H1. apply memZ_In in K. rewrite K in H1.
+    destruct (wlo iv c).
+    + apply eqb_prop in H1. split; [left; reflexivity|symmetry; exact H1].
+    + destruct (whi iv c); [|discriminate]. cbn in H1. split; [right; reflexivity|exact H1].
+  - intros x K. specialize (H2 x K). apply existsb_exists in H2. destruct H2 as (c & Hc & E).
+    apply Z.eqb_eq in E. exists c. tauto.
+  - apply nodupb_sound. exact H3.
 Qed.
 
-Lemma greedy_okb_sound p1 kb pb : forall obs st,
-  greedy_okb p1 kb (fun iv c => Some (pb iv c)) st obs = true -> greedy_ids p1 kb pb st obs.
+Lemma greedy_okb_sound ei es wlo whi pb : forall obs st,
+  greedy_okb ei es wlo whi (fun iv c => Some (pb iv c)) st obs = true -> greedy_ids ei es wlo whi pb st obs.
 Proof.
   induction obs as [|[i ms] rest IH]; intros st H; cbn [greedy_okb] in H.
   - apply gi_stop. rewrite forallb_forall in H. intros v Hv. apply negb_true_iff. apply H. exact Hv.
   - destruct (split_at i st) as [[[pre iv] post]|] eqn:S; [|discriminate].
     destruct (split_at_spec _ _ _ _ _ S) as (E & Eid & Hfirst). subst i.
     rewrite !andb_true_iff in H. destruct H as [[[[H1 H2] H3] H4] H5].
-    rewrite forallb_forall in H2, H3. destruct (members_ok_sound _ _ _ _ _ H4) as [SS ND].
+    rewrite forallb_forall in H2, H3. pose proof (members_ok_sound _ _ _ _ _ _ H4) as MS.
     eapply gi_step; try eassumption.
     + intros v Hv El. specialize (H2 v Hv). rewrite El in H2. cbn in H2. apply Qle_bool_iff. exact H2.
     + intros v Hv El. specialize (H3 v Hv). rewrite El in H3. cbn in H3. apply Qlt_bool_iff. exact H3.
     + apply IH. exact H5.
 Qed.
 
-Lemma nodup_ids_filter (f : svar -> bool) l : NoDup (map sv_id l) -> NoDup (map sv_id (filter f l)).
-Proof.
-  induction l as [|v r IHr]; intro ND; [constructor|]. cbn [map] in ND. inversion ND as [|? ? NI ND']; subst.
-  cbn [filter]. destruct (f v); [|apply IHr; exact ND']. cbn [map]. constructor; [|apply IHr; exact ND'].
-  intro K. apply NI. apply in_map_iff in K. destruct K as (w & Ew & Hw). apply filter_In in Hw.
-  rewrite <- Ew. apply in_map. tauto.
-Qed.
-
-Lemma existsb_ids x (l : list svar) :
-  existsb (fun v0 : svar => sv_id v0 =? x) l = existsb (Z.eqb x) (map sv_id l).
-Proof.
-  induction l as [|w r IHr]; [reflexivity|]. cbn [existsb map]. rewrite IHr, (Z.eqb_sym (sv_id w)). reflexivity.
-Qed.
+Lemma bool_eq_iff (a b : bool) : (a = true <-> b = true) -> a = b.
+Proof. destruct a, b; intros [H1 H2]; try reflexivity; [symmetry; apply H1; reflexivity|apply H2; reflexivity]. Qed.
 
 (* the model's own output passes the checker's specification: the two characterisations agree *)
-Lemma greedy_to_ids p1 kb pb st cl :
-  NoDup (map sv_id st) -> greedy p1 kb pb st cl -> greedy_ids p1 kb pb st (ids_of cl).
+Lemma greedy_to_ids p1 win pb st cl :
+  NoDup (map sv_key st) -> NoDup (map sv_id st) -> greedy p1 win pb st cl ->
+  greedy_ids (eligible p1) (eligible p1) win win pb st (ids_of cl).
 Proof.
-  intros ND G. induction G as [st H|st pre iv post rest E El Hmin Hpre G IH].
+  intros NK ND G. induction G as [st H|st pre iv post rest E El Hmin Hpre G IH].
   - apply gi_stop. exact H.
   - cbn [ids_of map fst snd]. fold (ids_of rest).
-    assert (NoDup (map sv_id (members kb pb iv st))) as NDm.
-    { unfold members. apply nodup_ids_filter. exact ND. }
-    assert (remove_vars (members kb pb iv st ++ [iv]) st
-            = filter (fun v => negb (memZ (sv_id v) (sv_id iv :: map sv_id (members kb pb iv st)))) st) as ER.
-    { unfold remove_vars. apply filter_ext. intro v. f_equal.
-      unfold has_id, memZ. rewrite existsb_app. cbn [existsb]. rewrite orb_false_r.
-      rewrite (Z.eqb_sym (sv_id iv)). rewrite orb_comm. f_equal.
-      apply existsb_ids. }
+    assert (In iv st) as Hiv by (rewrite E; apply in_or_app; right; left; reflexivity).
+    assert (incl (members win pb iv st) st) as Hms by (intros x Hx; unfold members in Hx; apply filter_In in Hx; tauto).
+    assert (remove_vars (members win pb iv st ++ [iv]) st
+            = filter (fun v => negb (memZ (sv_id v) (sv_id iv :: map sv_id (members win pb iv st)))) st) as ER.
+    { unfold remove_vars. apply filter_ext_in. intros v Hv. f_equal. apply bool_eq_iff.
+      rewrite has_key_true, memZ_In. split; intro K.
+      - apply in_map_iff in K. destruct K as (m & Em & Hm).
+        assert (In m st) as Hm' by (apply in_app_or in Hm; destruct Hm as [Hm|[<-|[]]]; [apply Hms; exact Hm|exact Hiv]).
+        assert (m = v) as -> by (apply (nodup_map_inj sv_key st); assumption).
+        apply in_app_or in Hm. destruct Hm as [Hm|[<-|[]]]; [right; apply in_map; exact Hm|left; reflexivity].
+      - assert (In (sv_id v) (map sv_id (iv :: members win pb iv st))) as K' by exact K.
+        apply in_map_iff in K'. destruct K' as (m & Em & Hm).
+        assert (In m st) as Hm' by (destruct Hm as [<-|Hm]; [exact Hiv|apply Hms; exact Hm]).
+        assert (m = v) as -> by (apply (nodup_map_inj sv_id st); assumption).
+        apply in_map. apply in_or_app. destruct Hm as [<-|Hm]; [right; left; reflexivity|left; exact Hm]. }
     eapply gi_step; try eassumption.
     + intros v Hv K. subst st. rewrite map_app in ND. cbn [map] in ND.
       apply NoDup_remove_2 in ND. apply ND. apply in_or_app. left. rewrite <- K. apply in_map. exact Hv.
-    + intro x. tauto.
-    + rewrite <- ER. apply IH. unfold remove_vars. apply nodup_ids_filter. exact ND.
+    + split; [|split; [|split]].
+      * intros c Hc W. split; intro K.
+        -- apply in_map_iff in K. destruct K as (m & Em & Hm).
+           assert (m = c) as -> by (apply (nodup_map_inj sv_id st); try assumption; apply Hms; exact Hm).
+           unfold members in Hm. apply filter_In in Hm. destruct Hm as [_ Hm]. apply andb_true_iff in Hm. tauto.
+        -- apply in_map. unfold members. apply filter_In. split; [exact Hc|]. rewrite W, K. reflexivity.
+      * intros c Hc K. apply in_map_iff in K. destruct K as (m & Em & Hm).
+        assert (m = c) as -> by (apply (nodup_map_inj sv_id st); try assumption; apply Hms; exact Hm).
+        unfold members in Hm. apply filter_In in Hm. destruct Hm as [_ Hm]. apply andb_true_iff in Hm. tauto.
+      * intros x K. apply in_map_iff in K. destruct K as (m & Em & Hm). exists m. split; [apply Hms; exact Hm|exact Em].
+      * unfold members. apply nodup_map_filter. exact ND.
+    + rewrite <- ER. apply IH; unfold remove_vars; apply nodup_map_filter; assumption.
 Qed.
 
 (* ---- SummaryStats.Load -------------------------------------------------------------------------- *)
@@ -444,7 +556,10 @@ Qed.
 Lemma load_variant_not_timeout gts v : load_variant gts v <> Err E_Timeout.
 Proof. unfold load_variant. destruct (filter _ gts) as [|g [|g' r]]; discriminate. Qed.
 
-Lemma clumpstr_terminates k : clumpstr pearson_oracle k <> Err E_Timeout.
+Lemma rekey_length l : forall k, length (rekey k l) = length l.
+Proof. induction l as [|v r IH]; intro k; [reflexivity|]. cbn. rewrite IH. reflexivity. Qed.
+
+Lemma clumpstr_terminates win k : clumpstr pearson_oracle win k <> Err E_Timeout.
 Proof.
   unfold clumpstr.
   destruct (negb (Bool.eqb (is_some (k_rows_snp k)) (is_some (k_snps k)))); [discriminate|].
@@ -456,8 +571,92 @@ Proof.
   apply bind_not.
   - unfold merged_gts. destruct (k_snps k), (k_strs k); discriminate.
   - intro gts. apply clump_loop_fuel; [apply load_variant_not_timeout| |apply le_n].
-    intros gi iv c. apply bind_not; [apply load_variant_not_timeout|]. intro gc.
+    intros gi iv c. unfold r2_pass. apply bind_not; [apply load_variant_not_timeout|]. intro gc.
     unfold pearson_oracle. cbn [bind]. discriminate.
+Qed.
+
+(* ---- clumpstr = load, then the greedy loop ------------------------------------------------------------ *)
+
+Lemma rekey_keys_ge l : forall k x, In x (map sv_key (rekey k l)) -> k <= x.
+Proof.
+  induction l as [|v r IH]; intros k x H; [contradiction|]. cbn in H. destruct H as [<-|H]; [lia|].
+  specialize (IH (k + 1) x H). lia.
+Qed.
+
+Lemma rekey_nodup l : forall k, NoDup (map sv_key (rekey k l)).
+Proof.
+  induction l as [|v r IH]; intro k; [constructor|]. cbn [rekey map sv_key]. constructor; [|apply IH].
+  intro K. apply rekey_keys_ge in K. lia.
+Qed.
+
+(* re-keying changes nothing but the key *)
+Lemma rekey_forall (P : svar -> Prop) :
+  (forall v k, P v -> P (mksv (sv_id v) (sv_chrom v) (sv_pos v) (sv_p v) (sv_type v) k)) ->
+  forall l k, Forall P l -> Forall P (rekey k l).
+Proof.
+  intros HP. induction l as [|v r IH]; intros k F; [constructor|]. inversion F; subst.
+  cbn [rekey]. constructor; [apply HP; assumption|apply IH; assumption].
+Qed.
+
+Lemma rekey_ids l : forall k, map sv_id (rekey k l) = map sv_id l.
+Proof. induction l as [|v r IH]; intro k; [reflexivity|]. cbn. rewrite IH. reflexivity. Qed.
+
+Lemma opt_load_below_p2 hdr f p2 ty rows l :
+  opt_load hdr f p2 ty rows = Ok l -> Forall (fun v => (sv_p v <= p2)%Q /\ sv_type v = ty) l.
+Proof.
+  unfold opt_load. destruct rows as [r|]; [|intro H; inversion H; constructor].
+  unfold load_stats.
+  destruct (need (index_of (f_id f) hdr)) as [a|]; cbn [bind]; [|discriminate].
+  destruct (need (index_of (f_p f) hdr)) as [b|]; cbn [bind]; [|discriminate].
+  destruct (need (index_of (f_chrom f) hdr)) as [c|]; cbn [bind]; [|discriminate].
+  destruct (need (index_of (f_pos f) hdr)) as [d|]; cbn [bind]; [|discriminate].
+  apply load_rows_below_p2.
+Qed.
+
+Lemma pearson_pb_spec r2 gts iv gi c b :
+  load_variant gts iv = Ok gi -> r2_pass pearson_oracle r2 gts gi iv c = Ok b -> pearson_pb r2 gts iv c = b.
+Proof.
+  intros L H. unfold pearson_pb. rewrite L. unfold r2_pass, pearson_oracle in H.
+  destruct (load_variant gts c) as [gc|e]; cbn [bind] in H; [|discriminate].
+  inversion H. reflexivity.
+Qed.
+
+(* clumpstr's model with the Pearson oracle: when it returns clumps, both tables loaded (every
+   loaded variant has p <= p2), the genotype sets merged, and the clumps are the greedy clumping
+   of the loaded statistics - index order, membership = window (the code's float64 test) and
+   r2 (squared correlation of the dosages over complete samples > clump_r2), removal - and no
+   loaded row is in two clumps *)
+Lemma clumpstr_greedy win k cl :
+  clumpstr pearson_oracle win k = Ok cl ->
+  exists s1 s2 gts,
+    opt_load (k_hdr_snp k) (k_fields k) (k_p2 k) 0 (k_rows_snp k) = Ok s1 /\
+    opt_load (k_hdr_str k) (k_fields k) (k_p2 k) 1 (k_rows_str k) = Ok s2 /\
+    merged_gts (k_snps k) (k_strs k) = Ok gts /\
+    let stats := rekey 0 (s1 ++ s2) in
+    map sv_id stats = map sv_id (s1 ++ s2) /\
+    Forall (fun v => (sv_p v <= k_p2 k)%Q) stats /\
+    NoDup (map sv_key stats) /\
+    greedy (k_p1 k) win (pearson_pb (k_r2 k) gts) stats cl /\
+    ForallOrdPairs (fun c1 c2 => forall x, In x (clump_keys c1) -> In x (clump_keys c2) -> False) cl.
+Proof.
+  unfold clumpstr. intro H.
+  destruct (negb (Bool.eqb (is_some (k_rows_snp k)) (is_some (k_snps k)))); [discriminate|].
+  destruct (negb (Bool.eqb (is_some (k_rows_str k)) (is_some (k_strs k)))); [discriminate|].
+  destruct (k_exact k && is_some (k_rows_str k)); [discriminate|].
+  destruct (opt_load (k_hdr_snp k) (k_fields k) (k_p2 k) 0 (k_rows_snp k)) as [s1|] eqn:L1; cbn [bind] in H; [|discriminate].
+  destruct (opt_load (k_hdr_str k) (k_fields k) (k_p2 k) 1 (k_rows_str k)) as [s2|] eqn:L2; cbn [bind] in H; [|discriminate].
+  destruct (match k_snps k with Some a => existsb snp_calls_bad (gs_vars a) | None => false end); [discriminate|].
+  destruct (merged_gts (k_snps k) (k_strs k)) as [gts|] eqn:M; cbn [bind] in H; [|discriminate].
+  exists s1, s2, gts. split; [reflexivity|]. split; [reflexivity|]. split; [reflexivity|].
+  cbv zeta.
+  assert (greedy (k_p1 k) win (pearson_pb (k_r2 k) gts) (rekey 0 (s1 ++ s2)) cl) as G.
+  { eapply clump_loop_greedy. eapply clump_loop_as_total; [|exact H].
+    intros iv gi c b. apply pearson_pb_spec. }
+  split; [apply rekey_ids|]. split; [|split; [apply rekey_nodup|split; [exact G|eapply greedy_disjoint; exact G]]].
+  apply rekey_forall; [intros v key Hv; exact Hv|].
+  apply Forall_app. split.
+  - eapply Forall_impl; [|eapply opt_load_below_p2; exact L1]. cbn. intros v Hv. tauto.
+  - eapply Forall_impl; [|eapply opt_load_below_p2; exact L2]. cbn. intros v Hv. tauto.
 Qed.
 
 (* ---- GetOverlappingSamples: every returned pair of indices names the same sample -------------------- *)
@@ -684,3 +883,19 @@ Proof.
   - apply sort_samples_in. apply (index_from_in _ 0). exact H1.
   - apply sort_samples_in. apply (index_from_in _ 0). exact H2.
 Qed.
+
+(* ---- the float64 window test on fractional radii (evaluated; PrimFloat primitives) ------------------ *)
+
+(* The window test in the code's float64 arithmetic on fractional radii: --clump-kb 2.01 (the
+   float64 0x1.0147ae147ae14p+1 = 201/100 correctly rounded, whose product with 1000 is
+   2009.9999999999998) keeps the variant
+   2009 bp from the index and drops the one at 2010 bp; --clump-kb 1.2345 keeps 1234 bp and drops
+   1235 bp; --clump-kb 0.1 (the float64 above 1/10) drops 100 bp. *)
+Example window_float_example :
+  let v pos := mksv pos 1 pos (1#2) 0 pos in
+  (map (fun d => win_float (PrimFloat.div (Stats.f_of_Z 201) (Stats.f_of_Z 100)) (v 5000) (v (5000 + d))) [2009; -2009; 2010; -2010],
+   map (fun d => win_float (PrimFloat.div (Stats.f_of_Z 12345) (Stats.f_of_Z 10000)) (v 5000) (v (5000 + d))) [1234; 1235],
+   map (fun d => win_float (PrimFloat.div (Stats.f_of_Z 1) (Stats.f_of_Z 10)) (v 5000) (v (5000 + d))) [99; 100])
+  = ([true; true; false; false], [true; false], [true; false]).
+Proof. vm_compute. reflexivity. Qed.
+
